@@ -205,6 +205,42 @@ def translate(tasks=None):
     return 0, '', dt + time.time() - t0, changed
 
 
+GEN_MODULE_TASK = {'MldsaScalar': 'mldsa', 'AliasSites': 'alias', 'Footprints': 'footprints', 'RepoConsts': 'consts',
+                   'SlhdsaParams': 'slhdsa', 'SerialTables': 'enums'}
+
+
+def needed_gen_tasks(targets):
+    """Translator tasks whose output the given .vo targets need: textual closure over the
+    `Require` lines of the .v sources (coqdep cannot tell while a generated file is still absent)."""
+    import re
+    index = {}
+    for d in ('lib', 'gen', 'model', 'proofs', 'props', 'extract'):
+        for f in glob.glob(f'{COQ}/{d}/*.v'):
+            index[os.path.basename(f)[:-2]] = f
+    seen, stack, tasks = set(), [os.path.basename(t)[:-3] for t in targets], set()
+    while stack:
+        m = stack.pop()
+        if m in seen:
+            continue
+        seen.add(m)
+        if m in GEN_MODULE_TASK:
+            tasks.add(GEN_MODULE_TASK[m])
+            continue
+        f = index.get(m)
+        if not f:
+            continue
+        try:
+            txt = open(f).read()
+        except OSError:
+            continue
+        for line in re.findall(r'^\s*(?:From\s+Tink\s+)?Require\s+(?:Import|Export)?\s*([^.]*)\.', txt, flags=re.M):
+            for w in line.split():
+                w = w.split('.')[-1]
+                if w in index or w in GEN_MODULE_TASK:
+                    stack.append(w)
+    return sorted(tasks)
+
+
 def make_targets(targets, jobs=16, timeout=3000):
     coq_makefile()
     # each coqc may use at most 20 GB of address space: a runaway proof fails instead of exhausting the machine
